@@ -1,0 +1,38 @@
+//go:build verif
+
+// Contracts for package replay (comment-only; read by /verif/govc).
+
+package replay
+
+//@ func (c *ReplayCache) computeSignature(data []byte) (r uint64)
+//@   trusted FNV-64a from hash/fnv; collisions are outside the property
+//@   ensures r == sigOf(data)
+//@
+//@ // Per-call contract of the cache. "Rot" below means c.previous != old(c.previous):
+//@ // a generation was dropped during the call. All clock reads of the call lie
+//@ // between old(ghost(now)) and ghost(now).
+//@ func (c *ReplayCache) IsDuplicate(data []byte, tag string) (r bool)
+//@   property C06
+//@   mode int
+//@   requires c != nil ==> c.current != nil && c.previous != nil && c.current != c.previous && c.capacity >= 0 && c.expireInterval > 0
+//@   requires c != nil ==> 0 <= unixnano(c.expireTime) && unixnano(c.expireTime) < 4611686018427387904 && ghost(now) >= 0
+//@   modifies c.current, c.previous, c.expireTime, c.current[..]
+//@   // disabled cache
+//@   ensures (c == nil || c.capacity == 0) ==> !r
+//@   // never reports never-seen traffic as a replay
+//@   ensures r ==> old(has(c.current, sigOf(data)) || has(c.previous, sigOf(data)))
+//@   ensures r && !old(has(c.current, sigOf(data))) ==> (old(c.previous[sigOf(data)]) == "" || tag == "" || old(c.previous[sigOf(data)]) != tag)
+//@   // whatever was presented is on record afterwards
+//@   ensures c != nil && c.capacity != 0 ==> has(c.current, sigOf(data)) || has(c.previous, sigOf(data))
+//@   // a generation is dropped only when full or when its time has come, and the clock is re-armed
+//@   ensures c != nil && c.previous != old(c.previous) ==> old(len(c.current)) >= c.capacity || unixnano(old(c.expireTime)) < ghost(now)
+//@   ensures c != nil && c.previous != old(c.previous) ==> unixnano(c.expireTime) >= old(ghost(now)) + mathint(c.expireInterval) && unixnano(c.expireTime) <= ghost(now) + mathint(c.expireInterval)
+//@   ensures c != nil && c.previous == old(c.previous) ==> c.expireTime == old(c.expireTime) && c.current == old(c.current)
+//@   // both generations go only when the newest one is older than the interval
+//@   ensures c != nil && c.previous != old(c.previous) && c.previous != old(c.current) ==> ghost(now) - unixnano(old(c.expireTime)) > mathint(c.expireInterval)
+//@   // one-step retention of every other entry
+//@   ensures c != nil ==> all(s, uint64, old(has(c.current, s)) && (c.previous == old(c.previous) || c.previous == old(c.current)) ==> has(c.current, s) || has(c.previous, s))
+//@   ensures c != nil ==> all(s, uint64, old(has(c.previous, s)) && c.previous == old(c.previous) ==> has(c.previous, s))
+//@   // only new distinct entries consume capacity
+//@   ensures c != nil && c.capacity != 0 && c.previous == old(c.previous) ==> len(c.current) == old(len(c.current)) + ite(old(has(c.current, sigOf(data)) || has(c.previous, sigOf(data))), 0, 1)
+//@   ensures c != nil && c.capacity != 0 && c.previous != old(c.previous) ==> len(c.current) <= 1
